@@ -2,6 +2,7 @@
    the property, the second the operation. The harness sends the same case to the implementation. *)
 From ToughV Require Import Model.Base Model.Pct Model.Json Model.CJson Model.ClientRun Model.TName
      Model.Glob Model.Deleg Model.Keys Model.Editor.
+From ToughV Require Import Model.RootCmd.
 
 Definition run_C16 (op : N) (a : list tree) : tree :=
   match op, a with
@@ -115,6 +116,7 @@ Definition run_case (t : tree) : tree :=
       else if p =? 13 then run_C13 op args
       else if p =? 17 then run_C17 op args
       else if p =? 6 then run_client op args
+      else if p =? 20 then run_C20 op args
       else T [L 999]
   | _ => T [L 999]
   end.
